@@ -29,6 +29,17 @@ def flipGuard (D : Nat) (cells : List (List Nat)) (R I : List Nat) : Bool :=
   decide (R ++ I).Nodup && !R.isEmpty && !I.isEmpty && R.length + I.length == D + 2 &&
   (flipOld R I).all cells.contains && (flipNew R I).all (fun c => !cells.contains c)
 
+/-- the inserted face must be new: no cell outside the removed star contains all of `I`
+(`find_cell_containing_simplex(tds, inserted_face_vertices, removed_cells)` →
+`InsertedSimplexAlreadyExists`, flips.rs; for k = D and k = 1 the implementation reaches the same
+refusal through its duplicate-cell / facet-degree guards) -/
+def insertedFaceNew (cells : List (List Nat)) (R I : List Nat) : Bool :=
+  cells.all (fun c => (flipOld R I).contains c || !(I.all c.contains))
+
+/-- every guard of the move that depends only on `R`, `I` and the cell set -/
+def flipGuardFull (D : Nat) (cells : List (List Nat)) (R I : List Nat) : Bool :=
+  flipGuard D cells R I && insertedFaceNew cells R I
+
 /-- the move: drop the old cells, add the new ones -/
 def flipCells (cells : List (List Nat)) (R I : List Nat) : List (List Nat) :=
   cells.filter (fun c => !(flipOld R I).contains c) ++ flipNew R I
